@@ -40,6 +40,15 @@ Proof. exact LRProofs.quiescent_finished. Qed.
 Theorem lr_bounded_work : ltac:(let T := type of LRProofs.bounded_work in exact T).
 Proof. exact LRProofs.bounded_work. Qed.
 
+(* existence form of termination: from every reachable state of programs that
+   release every handle they take (and never call modify under one), some
+   schedule of at most [mu s] steps finishes every thread *)
+Theorem lr_progress_step : ltac:(let T := type of LRProofs.progress_step in exact T).
+Proof. exact LRProofs.progress_step. Qed.
+
+Theorem lr_eventually_finishes : ltac:(let T := type of LRProofs.eventually_finishes in exact T).
+Proof. exact LRProofs.eventually_finishes. Qed.
+
 (* ---------- cow_guarded ---------- *)
 (* lock_shared and snapshot reads: every step enabled in ANY state under ANY choice *)
 Theorem cow_read_wait_free : ltac:(let T := type of CowProofs.cow_read_wait_free in exact T).
